@@ -61,15 +61,26 @@ def text(rng, n):
     return "".join(rng.choice(pool) for _ in range(n))
 
 
+_SNAP_PERIOD = bytes((i * 7 + 1) % 256 for i in range(256))
+
+
+def snapshot_bytes(n: int) -> bytes:
+    """the image the test camera returns for size n: byte i is (7 i + 1) mod 256 (period 256)"""
+    return (_SNAP_PERIOD * (n // 256 + 1))[:n]
+
+
 def build_accessory(driver, nchars=NSTR):
     from pyhap.accessory import Accessory
     from pyhap.characteristic import Characteristic
     from pyhap.service import Service
 
     class Cam(Accessory):
+        snapshots_done = 0  # how many snapshots the application has handed back so far
+
         async def async_get_snapshot(self, info):
             await asyncio.sleep(info.get("delay", 0))
-            return bytes((i * 7 + 1) % 256 for i in range(info["size"]))
+            self.snapshots_done += 1
+            return snapshot_bytes(info["size"])
 
     acc = Cam(driver, "Acc")
     svc = Service(UUID("0000F000-0000-1000-8000-0026BB765291"), "Strs")
@@ -169,6 +180,25 @@ def size_targeting_script(rng, target):
     return [["appset", i, 256] for i in range(4)] + [["fit_get", target], ["get", [0]]]
 
 
+def vary_request(rng, plain: bytes, kind: str):
+    """The same request as another conforming controller may put it on the wire. Returns the pieces to send one after
+    the other.  "expect": `Expect: 100-continue` (RFC 7231 5.1.1), head first, body after a moment;
+    "chunked": the body in chunked transfer coding instead of Content-Length."""
+    head, sep, body = plain.partition(b"\r\n\r\n")
+    if kind == "expect":
+        head += b"\r\nExpect: 100-continue"
+        return [head + sep, body] if body else [head + sep]
+    if kind == "chunked" and body and b"\r\nContent-Length: %d" % len(body) in head:
+        head = head.replace(b"\r\nContent-Length: %d" % len(body), b"\r\nTransfer-Encoding: chunked", 1)
+        out, pos = b"", 0
+        while pos < len(body):
+            n = rng.choice([1, 7, 64, len(body)])
+            out += b"%x\r\n" % len(body[pos : pos + n]) + body[pos : pos + n] + b"\r\n"
+            pos += n
+        return [head + sep + out + b"0\r\n\r\n"]
+    return [plain]
+
+
 def run_script(ctx: Ctx, hc, hp, ops, mode, seed):
     """Drive the real protocol; returns observations for oracle and correspondence."""
     import random
@@ -200,15 +230,26 @@ def run_script(ctx: Ctx, hc, hp, ops, mode, seed):
         shared_keys = []
         marks = {}
 
+        hdr = {"kind": None, "left": 0}  # request-header variety for the next `left` requests (op "hdr")
+        if any(o[0] == "hdr0" for o in ops):
+            hdr.update(kind=[o for o in ops if o[0] == "hdr0"][0][1], left=2)  # ... on the initial pair-verify exchange
+
         def send(plain, kind):
             if tr.closed:  # asyncio delivers nothing after close(); the controller has gone away
                 return
             expected.append(kind)
-            data = sess.wrap(rng, plain)
-            cuts = sorted(rng.sample(range(1, len(data)), min(len(data) - 1, rng.choice([0, 0, 1, 3])))) if len(data) > 1 else []
-            pts = [0] + cuts + [len(data)]
-            for a, b in zip(pts, pts[1:]):
-                proto.data_received(data[a:b])
+            parts = [plain]
+            if hdr["left"] > 0:
+                hdr["left"] -= 1
+                parts = vary_request(rng, plain, hdr["kind"])
+            for part in parts:
+                data = sess.wrap(rng, part)
+                cuts = sorted(rng.sample(range(1, len(data)), min(len(data) - 1, rng.choice([0, 0, 1, 3])))) if len(data) > 1 else []
+                pts = [0] + cuts + [len(data)]
+                for a, b in zip(pts, pts[1:]):
+                    proto.data_received(data[a:b])
+                if len(parts) > 1:
+                    rig.loop.settle()  # head and body travel separately (the controller waits a moment for an interim response)
 
         def verify():
             if tr.closed:
@@ -275,11 +316,19 @@ def run_script(ctx: Ctx, hc, hp, ops, mode, seed):
                         # an event may be produced while the delayed response is pending
                         chars[0].set_value("w" * rng.choice([3, 250]))
                     inject = [op[3] if len(op) > 3 else 0]
+                    when_ready = len(op) > 4 and op[4] == "ready"
+                    done0 = acc.snapshots_done
 
-                    def hook(_i=inject):
+                    def hook(_i=inject, _r=when_ready, _d=done0):
                         # application activity between two loop iterations (as call_soon_threadsafe
                         # from a worker thread would produce): a button press -> immediate event
-                        if _i[0] > 0 and rng.random() < 0.6:
+                        if _r:
+                            # ... on every one of the loop iterations that follow the moment the application has
+                            # handed the image back (the doorbell rings while the response is being written)
+                            if _i[0] > 0 and acc.snapshots_done > _d:
+                                _i[0] -= 1
+                                chars[6].set_value(rng.randrange(1, 255))
+                        elif _i[0] > 0 and rng.random() < 0.6:
                             _i[0] -= 1
                             chars[6].set_value(rng.randrange(1, 255))
 
@@ -324,7 +373,9 @@ def run_script(ctx: Ctx, hc, hp, ops, mode, seed):
                         if not tr.closed:
                             # the parser accepted it after all: then it is a request and is owed one response
                             expected.append("any")
-                elif k == "legacy":
+                elif k == "hdr":
+                    hdr.update(kind=op[1], left=op[2] if len(op) > 2 else 1)
+                elif k in ("legacy", "hdr0"):
                     pass
                 rig.loop.settle()
         except Exception as ex:  # noqa: BLE001  the reference controller could not go on
@@ -392,7 +443,10 @@ def split_all(tr, marks, shared_keys, cipher_cls):
             if fail_end is not None:
                 problems.append(f"session {i}: frame ending at {fail_end} does not authenticate under counter {len(frames)}")
             elif consumed != len(seg):
-                problems.append(f"session {i}: {len(seg) - consumed} trailing bytes are not a complete frame")
+                rest = seg[consumed:]
+                what = (f" -- they read {rest[:24]!r}: plaintext written inside the encrypted session"
+                        if rest.startswith((b"HTTP/1.", b"EVENT/1.")) else "")
+                problems.append(f"session {i}: the {len(rest)} bytes after the first {len(frames)} frame(s) are not a complete frame{what}")
             prev = 0
             for e, p in frames:
                 sizes.append(len(p))
@@ -400,7 +454,10 @@ def split_all(tr, marks, shared_keys, cipher_cls):
             plain = b"".join(p for _, p in frames)
         m, left = ref.split_messages(plain)
         if left:
-            problems.append(f"regime {i}: {len(left)} bytes do not parse as complete HTTP/EVENT messages")
+            inside = next((x for x in m if x[0] == "response" and b"EVENT/1.0 " in x[3] and x[2].get(b"content-type") == b"image/jpeg"), None)
+            what = (f" -- an EVENT message begins at offset {inside[3].find(b'EVENT/1.0 ')} inside the {len(inside[3])}-byte body of a response "
+                    f"(a response and an event interleaved)" if inside else "")
+            problems.append(f"regime {i}: {len(left)} bytes do not parse as complete HTTP/EVENT messages{what}")
         msgs += m
         start = end
     return msgs, problems, sizes
@@ -433,7 +490,8 @@ def judge(ctx: Ctx, obs, ops, mode, seed):
     if any(s < 1 or s > 1024 for s in sizes):
         ctx.fail("C05:frame-size-out-of-range", f"frame payload sizes {sorted(set(s for s in sizes if s < 1 or s > 1024))}", rep)
     # plaintext regime must end with the pair-verify completion; nothing after mark 0 is plaintext
-    responses = [m for m in msgs if m[0] == "response"]
+    # an interim 1xx response (to `Expect: 100-continue`) is a complete HTTP message of its own, not the answer
+    responses = [m for m in msgs if m[0] == "response" and not 100 <= m[1] < 200]
     if len(responses) != len(obs["expected"]):
         ctx.fail(
             "C05:response-count",
@@ -454,7 +512,7 @@ def judge(ctx: Ctx, obs, ops, mode, seed):
             ok = m[1] in (204, 207)
         elif kind.startswith("snapshot:"):
             n_ = int(kind.split(":")[1])
-            ok = m[1] == 200 and ct == b"image/jpeg" and m[3] == bytes((i * 7 + 1) % 256 for i in range(n_))
+            ok = m[1] == 200 and ct == b"image/jpeg" and m[3] == snapshot_bytes(n_)
         if not ok:
             ctx.fail("C05:response-out-of-order", f"response to {kind} is {m[1]} {ct!r} ({len(m[3])} bytes)", rep)
             break
@@ -582,17 +640,105 @@ def run_event_format(ctx: Ctx):
             ctx.disagree("event-format", {"data": str(data)[:200]}, _short(m), _short(i))
 
 
+def variety_scripts(ctx: Ctx):
+    """Request-header variety (`Expect: 100-continue`, chunked request bodies; after the upgrade, on the pair-verify
+    requests before it, and on a re-verification inside the session) and responses larger than 256 KiB (300 KiB,
+    1 MiB snapshots; /accessories of a big bridge is out of reach of the quick tier) with immediate events produced
+    on every loop iteration that follows the moment the application hands the image back."""
+    import random
+
+    xr = random.Random(f"C05:variety:{ctx.seed}")
+    out = []
+    for m in ("mock", "real"):
+        out.append(([["hdr", "expect"], ["put", 0, 50], ["get", [0]]], m))
+        out.append(([["sub", [0]], ["hdr", "expect"], ["put", 1, 200], ["appset", 0, 10], ["advance", 1.0], ["get", [0, 1]]], m))
+        out.append(([["hdr0", "expect"], ["get_acc"], ["put", 0, 5]], m))
+    out.append(([["sub", [6]], ["snapshot", 307200, 0, 6, "ready"], ["get", [0]]], "real"))
+    out.append(([["hdr", "expect"], ["sub", [0, 6]], ["button"], ["get", [6]]], "real"))
+    out.append(([["hdr", "expect", 2], ["reverify"], ["get_acc"]], "mock"))
+    out.append(([["hdr", "expect"], ["snapshot", 2000, 0.25, 0], ["get", [0]]], "real"))
+    out.append(([["hdr", "chunked"], ["put", 0, 200], ["get", [0]], ["hdr", "chunked"], ["sub", [0, 1]], ["appset", 1, 30], ["advance", 1.0]], "mock"))
+    out.append(([["sub", [6]], ["snapshot", 1048576, 0.25, 8, "ready"], ["get", [6]]], "real"))
+    out.append(([["sub", [0, 6]], ["appset", 0, 40], ["snapshot", 262144, 0, 4, "ready"], ["get_acc"]], "real"))
+    out.append(([["hdr", "expect"], ["sub", [6]], ["hdr", "expect"], ["snapshot", 300000, 0, 3, "ready"], ["button"], ["get", [6]]], "real"))
+    for _ in range(ctx.n(24, 600)):
+        ops = gen_script(xr, ctx.quick)
+        res = []
+        for op in ops:
+            if op[0] in ("put", "sub", "snapshot", "reverify", "get", "get_acc") and xr.random() < 0.3:
+                res.append(["hdr", xr.choice(["expect", "expect", "chunked"]), 2 if op[0] == "reverify" else 1])
+            res.append(op)
+        if xr.random() < 0.08:
+            res.insert(0, ["hdr0", "expect"])
+        if xr.random() < 0.25:
+            at = xr.randrange(len(res) + 1)
+            res[at:at] = [["sub", [6]], ["snapshot", xr.choice([262144, 270000, 307200, 600000]), xr.choice([0, 0, 0.25]), xr.choice([2, 5, 9]), "ready"]]
+        big = any(o[0] == "snapshot" and o[1] > 60000 for o in res)
+        out.append((res, "real" if big else xr.choice(["mock", "real"])))
+    return out
+
+
+def long_tx_plan(ctx: Ctx):
+    import random
+
+    xr = random.Random(f"C05:long-tx:{ctx.seed}")
+    return {"frames": 65536 + xr.choice([5, 300, 900]), "seed": xr.randrange(1 << 30)}
+
+
+def run_long_tx(ctx: Ctx, hc, plan):
+    """One session that writes more than 65536 frames (mostly 1-byte messages, a few multi-frame ones): the reference
+    controller (real ChaCha20-Poly1305, nonce = 4 zero bytes || LE64 frame number) must open every frame under counters
+    0,1,2,... and recover exactly the messages -- the counter leaving the two low bytes of the nonce is nothing special."""
+    import random
+
+    r = random.Random(plan["seed"])
+    st = ctx.stats
+    key = bytes(range(11, 43))
+    c = hc.HAPCrypto(key)
+    rep = {"kind": "long-tx", "plan": plan}
+    msgs, nfr = [], 0
+    s0 = r.randrange(251)
+    while nfr < plan["frames"]:
+        if r.random() < 0.001 or nfr in (65534, 65535):
+            n = r.choice([2, 1024, 1025, 2049])
+        else:
+            n = 1
+        msgs.append(bytes([(s0 + nfr) % 251]) * n)
+        nfr += (n + 1023) // 1024
+    try:
+        wire = b"".join(b"".join(bytes(x) for x in c.encrypt(m)) for m in msgs)
+    except Exception as ex:  # noqa: BLE001
+        ctx.fail("C05:encrypt-raised", f"encrypt raised {type(ex).__name__} in a session of {nfr} frames", rep)
+        return
+    frames, fail_end, consumed = ref.receive(ref.Real(ref.hkdf(key, ref.SALT, ref.A2C)), wire)
+    if fail_end is not None:
+        ctx.fail("C05:stream-not-wellformed", f"long session: frame number {len(frames)} (ending at byte {fail_end}) does not authenticate "
+                 f"under counter {len(frames)}", rep)
+    elif consumed != len(wire) or b"".join(p for _, p in frames) != b"".join(msgs):
+        ctx.fail("C05:stream-not-wellformed", f"long session of {nfr} frames: the frames do not carry exactly the messages", rep)
+    elif any(not 1 <= len(p) <= 1024 for _, p in frames):
+        ctx.fail("C05:frame-size-out-of-range", "long session: a frame payload outside 1..1024", rep)
+    st.case(["long-tx", plan["frames"], plan["seed"]], True)
+    st.hit("op", "long-tx-session")
+    st.hit("outcome", f"long-tx:frames-opened:{'all' if fail_end is None else len(frames)}")
+
+
 def run(ctx: Ctx):
     hc, hp = _reload()
     st = ctx.stats
     rng = ctx.rng
     run_event_format(ctx)
     run_encrypt_sequences(ctx, hc)
+    if ctx.budget_scale >= 0.5:  # not in the bounded interpreter-variant repeat
+        run_long_tx(ctx, hc, long_tx_plan(ctx))
     st.rule = (
         "scripts over one verified connection of a real HAPServerProtocol+AccessoryDriver on a virtual clock: reads, "
         "writes, subscriptions, application value changes (events), timer advances, delayed snapshot responses, second "
         "pair-verify (re-key, also with events queued / produced in the same iteration), transport write flow control "
-        "(pause, messages produced while paused, drain with a write due in the same iteration), plus response sizes steered to 1023/1024/1025/2047/2048/2049; real ChaCha (oracle only) or "
+        "(pause, messages produced while paused, drain with a write due in the same iteration), plus response sizes steered to 1023/1024/1025/2047/2048/2049, "
+        "request-header variety (Expect: 100-continue with head and body in separate reads, chunked request bodies; before the upgrade, after it, on a "
+        "re-verification), responses above 256 KiB (262144..1 MiB snapshots) with an immediate event on every loop iteration after the image is ready, "
+        "one HAPCrypto session of more than 65536 outbound frames opened by the reference controller; real ChaCha (oracle only) or "
         "mock AEAD (oracle + model correspondence). Non-trivial = at least one message beyond the pair-verify exchange "
         "written after the upgrade; distinct by op script."
     )
@@ -626,6 +772,9 @@ def run(ctx: Ctx):
         big = any(o[0] == "snapshot" and o[1] > 60000 for o in ops_)
         # the transparent mock cipher is pure Python (slow on big payloads): big responses use real ChaCha
         scripts.append((ops_, "real" if big else rng.choice(["mock", "real"])))
+    # ---- scripts added later; APPENDED, so that every script above keeps its index and with it its per-script seed
+    n_old = len(scripts)
+    scripts += variety_scripts(ctx)
     lines, impls, idx = [], [], []
     # a bounded repeat with the pyhap logger at DEBUG (behaviour must not depend on the logging configuration)
     from common import pyhap_debug_logging
@@ -633,7 +782,7 @@ def run(ctx: Ctx):
     with pyhap_debug_logging():
         _DEBUG_LOGGING[0] = True
         try:
-            for i, (ops, mode) in enumerate(scripts[:40:2]):
+            for i, (ops, mode) in enumerate(scripts[:40:2] + scripts[n_old : n_old + 12 : 3]):
                 seed = ctx.seed * 100003 + 900000 + i
                 judge(ctx, run_script(ctx, hc, hp, ops, mode, seed), ops, mode, seed)
                 st.hit("op", "script-under-debug-logging")
@@ -684,6 +833,12 @@ def search(ctx: Ctx):
         ctx.tier = saved
     if ctx.failures:
         return
+    run_long_tx(ctx, hc, long_tx_plan(ctx))
+    for i, (ops, mode) in enumerate(variety_scripts(ctx)):
+        seed = ctx.seed * 100003 + 70000 + i
+        judge(ctx, run_script(ctx, hc, hp, ops, mode, seed), ops, mode, seed)
+    if ctx.failures:
+        return
     for i in range(600):
         ops = gen_script(rng, False)
         mode = rng.choice(["mock", "real"])
@@ -706,6 +861,13 @@ def replay(ctx: Ctx, r):
         print("event message:", msg[:120], "...")
         print("verdict:", "property violated on this input" if bad else "holds on this input")
         return 1 if bad else 0
+    if r.get("kind") == "long-tx":
+        run_long_tx(ctx, hc, r["plan"])
+        print("plan", r["plan"])
+        for f in ctx.failures:
+            print("FAILS:", f.signature, f.description)
+        print("verdict:", "property violated on this input" if ctx.failures else "holds on this input")
+        return 1 if ctx.failures else 0
     if r.get("kind") == "encrypt-seq":
         run_encrypt_sequences(ctx, hc)
         for f in ctx.failures:
